@@ -5,6 +5,7 @@
 -/
 import UnytModel.UfuncValue
 import UnytModel.Ref.C04Classes
+import UnytModel.Shape
 
 set_option linter.unusedSectionVars false
 
@@ -217,5 +218,31 @@ theorem dispatch_converting_ok_dims (ueq : UnitV K → UnitV K → Bool) (hueq :
       · contradiction
       · simp [he, hd] at h
   · exact (hueq _ _ he).2.2
+
+/-! ### shapes: the size of an array is the length of an axis times the size of the rest -/
+
+theorem foldl_mul_eq_size (s : Shape) (k : Nat) : s.foldl (· * ·) k = k * Shape.size s := by
+  induction s generalizing k with
+  | nil => simp [Shape.size]
+  | cons d r ih => simp only [List.foldl_cons, ih, Shape.size]; rw [Nat.mul_assoc]
+
+theorem size_eq_getD_mul_eraseIdx (s : Shape) (a : Nat) (h : a < s.length) :
+    Shape.size s = s.getD a 1 * Shape.size (s.eraseIdx a) := by
+  induction s generalizing a with
+  | nil => simp at h
+  | cons d r ih =>
+    cases a with
+    | zero => simp [Shape.size]
+    | succ a =>
+      have h' : a < r.length := by simpa using h
+      simp only [List.eraseIdx_cons_succ, Shape.size, List.getD_cons_succ, ih a h']
+      rw [Nat.mul_left_comm]
+
+theorem size_pos_of_all_pos (s : Shape) (h : ∀ d ∈ s, 0 < d) : 0 < Shape.size s := by
+  induction s with
+  | nil => simp [Shape.size]
+  | cons d r ih =>
+    simp only [Shape.size]
+    exact Nat.mul_pos (h d (List.mem_cons_self ..)) (ih fun x hx => h x (List.mem_cons_of_mem _ hx))
 
 end Unyt.UV
